@@ -34,6 +34,11 @@ def _expected_kind(resp):
     if ct == "application/octet-stream":
         return "bytes"
     if ct == "application/json" or ct.endswith("+json"):
+        sch = (content[ct] or {}).get("schema") or {}
+        if sch.get("type") == "string" and sch.get("format") == "binary":
+            # `format: binary` under a JSON media type is self-contradictory; the statement only speaks of bodies conforming to the declared
+            # schema, and delivering the raw bytes sent satisfies it as well as decoding JSON would: not judged
+            return "other"
         return "json"
     if ct.startswith("text/"):
         return "text"
